@@ -336,6 +336,25 @@ Section Funding.
     Definition create (w : wallet) : result :=
       rounds 5 (set_reserved true (map iid pre) w) [] payment0 cost0.
 
+    (* create(..., sign=True): after the loop, still inside the try, `await tx.sign(funding_accounts)`.
+       Signing changes no wallet state; it either succeeds or raises (locked account, no private key for
+       the address of an input, ...), and then the handler releases every input of the transaction.
+       [can_sign] says whether the final input list can be signed (always true for sign=False). *)
+    Variable can_sign : list N -> bool.
+
+    Inductive outcome :=
+    | Built (added : list utxo) (change : option Z) (w : wallet)
+    | Insufficient (w : wallet)      (* InsufficientFundsError, after release_tx *)
+    | SignFails (w : wallet).        (* any exception out of tx.sign, after release_tx *)
+
+    Definition create_signed (w : wallet) : outcome :=
+      match create w with
+      | Ok added ch w' =>
+        if can_sign (map iid pre ++ map uid added) then Built added ch w'
+        else SignFails (release (map iid pre ++ map uid added) w')
+      | Refused w' => Insufficient w'
+      end.
+
     (* the behaviour before that repair, kept for the refutation lemma *)
     Definition create_old (w : wallet) : result := rounds 5 w [] payment0 cost0.
   End Create.
